@@ -30,7 +30,7 @@ try:
     rc, o = run("/verif/run_baseline.sh " + W, "/verif")
     res["suite_passes_with_patch"] = (rc == 0 and "passed=155" in o)
     res["suite_output"] = o.strip()[:200]
-    dst = os.path.join(W, demo_dir, f"zz_seed_demo{i}_test.go")
+    dst = os.path.join(W, demo_dir, f"demo{i}_test.go")  # the name the sub-agent used (some demos compare file names)
     shutil.copy(demo, dst)
     pkg = "./" + demo_dir + "/"
     rc1, o1 = run(f"go test -vet=off -count=1 -run . {pkg} 2>&1 | tail -30", W)
